@@ -50,7 +50,7 @@ CLAIMED = {
     "C26": ("HANDOUT fixed point (mutable access only after detach), EFFECT (detach/share/clone) and NOFLOW (copy operations never read the source payload) on the class-template patterns of the pointer wrappers; REMEMBER (ReinitOnCopy's remembered initial value comes from the source's on copy and move construction, both specialisations agreeing); RELOCATE must-pass rule on Array_ (buffer released only after its elements were destroyed)",
             "Static decision of the pointer-wrapper clauses of C26 (DESIGN section 3): every CloneOnWritePtr member that exposes mutable access or releases ownership detaches first; copies share/increment, detach clones exactly when shared; "
             "ClonePtr copies clone; ReferencePtr/ResetOnCopy/ReinitOnCopy copy operations cannot carry the source's value. All of Array_/ArrayView_ (element order, exactly-once construction/destruction, growth) is value/heap semantics and NOT decided."),
-    "C23": ("PAIRCALL path rule (update slot written => marked realized with the same index on every path, in the function or in every caller), guard-index agreement, realize-hook MUSTCALL, getter/writer slot agreement; DEFN routing tables (operator per arithmetic measure, Integrate's derivative / initial-condition / z routing, Extreme's comparison and neutral element per operation with an exhaustive switch, Delay's time - delay)",
+    "C23": ("PAIRCALL path rule (update slot written => marked realized with the same index on every path, in the function or in every caller), guard-index agreement, realize-hook MUSTCALL, getter/writer slot agreement; DEFN routing tables (operator per arithmetic measure, Integrate's derivative / initial-condition / z routing, Extreme's comparison and neutral element per operation with an exhaustive switch, Delay's time - delay); DEPSTAGE (every operand whose value is read contributes to the depends-on stage); CONDALLOC (a resource allocated under a flag is used only under it)",
             "Static decision of two structural clauses of C23 (DESIGN section 3): the auto-update bookkeeping on which Extreme, Delay, Differentiate (and the other auto-update users) depend -- a value written into an update slot is marked realized on all paths with the same index, the 'already realized' test uses that index, the Acceleration-stage hook reaches the update, the getter reads a written slot -- "
             "and the ROUTING each definition prescribes: which operands are combined by which operator (Plus/Minus/Scale), which measure feeds zdot, the initial z, the value and the k-th derivative of Integrate, which comparison and start value each Extreme operation uses, and that Delay looks up time minus delay. "
             "The numerical values (integration accuracy, interpolation in the delay buffer, which history entries are kept, differentiation formulas) are NOT decided."),
